@@ -349,7 +349,7 @@ func TestLikeTable(t *testing.T) {
 	fail := tableFail(t)
 	W := ir.PatElem{Wild: true}
 	L := func(s string) ir.PatElem { return ir.PatElem{Lit: s} }
-	pats := [][]ir.PatElem{{}, {W}, {W, W}, {L("")}, {L("a")}, {L("*")}, {L("a"), W}, {W, L("a")}, {W, L("a"), W}, {L("a"), W, L("b")}, {L("ab"), W, L("ab")},
+	pats := [][]ir.PatElem{{}, {W}, {W, W}, {L("")}, {L(""), W}, {L(""), W, L("a")}, {L(""), L(""), W, L(""), W}, {W, L(""), W}, {L("a")}, {L("*")}, {L("a"), W}, {W, L("a")}, {W, L("a"), W}, {L("a"), W, L("b")}, {L("ab"), W, L("ab")},
 		{W, L("ab"), W, L("ab"), W}, {L("a"), L("b")}, {W, L("é")}, {L("é"), W}, {W, L("\xc3")}, {L("日"), W, L("本")}, {W, L("aa")}, {L("aa"), W, L("aa")}, {W, L("a"), W, L("a"), W, L("a")},
 		{L("a*")}, {L("\\")}, {W, L("*"), W}, {L("abc")}, {W, L("abc")}, {L("a"), W, L("c")}, {L("a"), W, W, L("c")}, {W, L("b"), W, L("c")}, {L("x"), W}, {L("\n")}, {W, L("\U0001F600")}}
 	subjs := []string{"", "a", "b", "aa", "ab", "ba", "aaa", "aba", "abab", "ababab", "abc", "aXbXc", "é", "aé", "éa", "日本", "日x本", "*", "a*", "\\", "a*b", "aab", "aaaa", "abcabc", "xabc", "ac", "bc", "abbc", "\n", "\U0001F600", "x\U0001F600", "aaaaaaaaab"}
